@@ -62,11 +62,13 @@ func (e *Engine) strOf(st *State, arr, off, n T) T {
 	e.declareUF("str_of", "(declare-fun str_of ((Array Int Int) Int Int) Int)")
 	r := app(SInt, "str_of", arr, off, n)
 	if e.quant > 0 {
-		// under a quantifier no per-term facts are made: length and content come from two global axioms
-		e.slen(r)
-		e.sarr(r)
-		e.declareUF("str_of!len", "(assert (forall ((a (Array Int Int)) (o Int) (n Int)) (! (=> (>= n 0) (= (slen (str_of a o n)) n)) :pattern ((str_of a o n)))))")
-		e.declareUF("str_of!byte", "(assert (forall ((a (Array Int Int)) (o Int) (n Int) (k Int)) (! (=> (and (<= 0 k) (< k n)) (= (select (sarr (str_of a o n)) k) (select a (+ o k)))) :pattern ((select (sarr (str_of a o n)) k)))))")
+		// under a quantifier no per-term facts are made, except, with `theory strlen` on the contract, the length fact
+		// as a side fact of the quantifier body (closed over the bound variables with it).  Not by default: it slowed
+		// unrelated quantified goals; a global axiom over array-sorted variables is worse -- it switches the solvers'
+		// model-based instantiation off
+		if e.strLenQ {
+			e.assume(st, Implies(Ge(n, I(0)), Eq(e.slen(r), n)), "string(bytes) length")
+		}
 		return r
 	}
 	// the same bytes denote the same string: reuse the identity (and its content facts) created on this path
